@@ -458,7 +458,7 @@ def _consts_of_sort(exprs, sort_names):
     return list(out.values())
 
 
-def refute_finite(pc, goal, kmax=4, timeout_ms=REFUTE_TIMEOUT_MS):
+def refute_finite(pc, goal, kmax=6, timeout_ms=REFUTE_TIMEOUT_MS):
     """Stage R: look for a countermodel of  pc |- goal  in a finite scope.  For K = 1..kmax every
     uninterpreted sort gets K pairwise distinct elements; the VC is expanded over them (see _expand) and
     every other constant of such a sort is constrained to be one of them.  The result is quantifier free, so
